@@ -1399,7 +1399,8 @@ class Body:
                 return out
         for j, (tb, lab) in enumerate(self.succ[bb]):
             if lab[0] == "swm" and src[0] != "discr":
-                out.append((j, ("unknown",)))       # one of several integer / bool values: no single comparison
+                # one of several integer / char values (`'"' | '\\' => ..`): no single comparison, but the set is known
+                out.append((j, ("intin", src[1], list(lab[1]))) if src[0] == "int" else (j, ("unknown",)))
                 continue
             if src[0] == "discr":
                 rv = src[1]
